@@ -244,6 +244,81 @@ def per_node_context_case(ctx, r):
             return
 
 
+_RE = []
+
+
+def reentrant_envs():
+    """Environments with a function extension that calls back into the library while a query is being evaluated
+    (counts the descendants of its argument with a nested query on the same environment, or re-enters the compiled
+    query that is running), next to twins whose extension computes the same number in plain Python."""
+    if _RE:
+        return _RE
+    import jsonpath
+    from jsonpath.function_extensions import ExpressionType, FilterFunction
+
+    def plain_count(v):
+        n = 0
+        stack = [v]
+        while stack:
+            x = stack.pop()
+            kids = list(x.values()) if isinstance(x, dict) else (list(x) if isinstance(x, list) else [])
+            n += len(kids)
+            stack.extend(kids)
+        return n
+
+    def make(caching, reentrant):
+        env = jsonpath.JSONPathEnvironment(filter_caching=caching)
+        inner = {}
+
+        class Desc(FilterFunction):
+            arg_types = [ExpressionType.VALUE]
+            return_type = ExpressionType.VALUE
+
+            def __call__(self, v):
+                if not isinstance(v, (dict, list)):
+                    return 0
+                if not reentrant:
+                    return plain_count(v)
+                if "p" not in inner:
+                    inner["p"] = env.compile("$..*")
+                return len(inner["p"].findall(v)) if len(v) % 2 else len(list(env.finditer("$..*", v)))
+
+        class Big(FilterFunction):
+            """How many children of the argument have more than one descendant: re-enters with a FILTER query."""
+            arg_types = [ExpressionType.VALUE]
+            return_type = ExpressionType.VALUE
+
+            def __call__(self, v):
+                if not isinstance(v, (dict, list)):
+                    return 0
+                if not reentrant:
+                    return sum(1 for x in (v.values() if isinstance(v, dict) else v) if plain_count(x) > 1)
+                return len(env.findall("$[?desc(@) > 1]", v))
+
+        env.function_extensions["desc"] = Desc()
+        env.function_extensions["big"] = Big()
+        return env
+
+    _RE.extend([make(True, True), make(False, True), make(True, False), make(False, False)])
+    return _RE
+
+
+def reentrant_case(ctx, r):
+    envs = reentrant_envs()
+    doc = gen.gen_doc(r, profile=r.choice(["unique", "mixed"]), hostile=0.1, max_depth=r.randint(3, 5), fan=r.randint(2, 4))
+    texts = ["$..[?desc(@) > 1]", "$[?desc(@) == desc($)]", "$..[?big(@) >= 1]", "$..[?desc(@) > 2 && big(@) < desc(@)]", "$..[?desc(@.*) == 0]", "$[?big($) > 0]", "$..[?desc(@) > big($)]"]
+    for text in texts:
+        ctx.evaluation()
+        outs = [outcome(lambda e=e: records(e.compile(text).finditer(doc))) for e in envs]
+        ctx.count("reentrant_function_cases")
+        if any(o != outs[3] for o in outs[:3]):
+            ctx.violation("result-changes-when-a-function-extension-calls-back-into-the-library", {"kind": "reentrant", "text": text, "doc": doc},
+                          {"text": text, "reentrant_caching_on": repr(outs[0])[:250], "reentrant_caching_off": repr(outs[1])[:250], "plain_caching_on": repr(outs[2])[:250], "plain_caching_off": repr(outs[3])[:250]})
+            return
+        if outs[3][0] == "ok" and outs[3][1]:
+            ctx.count("reentrant_function_cases_with_matches")
+
+
 def solo(text, doc, ex):
     """Reference: fresh environment with caching off, freshly compiled, fresh deep copy."""
     import jsonpath
@@ -569,6 +644,8 @@ def run(spec, ctx):
     if kind == "history":
         for _ in range(20):
             per_node_context_case(ctx, r)
+        for _ in range(25):
+            reentrant_case(ctx, r)
         # (H4's one-context-per-cell rule assumes the stock match class, whose filter context is one
         # object per evaluation; the per-node class hands out a new mapping per node by design)
         MON.violations.clear()
@@ -618,6 +695,13 @@ def replay(case, ctx):
         ctx.evaluation()
         if a != b:
             ctx.violation("caching-changes-the-result-under-a-per-node-filter-context", case, {"caching_on": repr(a)[:300], "caching_off": repr(b)[:300]})
+        return
+    if kind == "reentrant":
+        envs = reentrant_envs()
+        ctx.evaluation()
+        outs = [outcome(lambda e=e: records(e.compile(case["text"]).finditer(case["doc"]))) for e in envs]
+        if any(o != outs[3] for o in outs[:3]):
+            ctx.violation("result-changes-when-a-function-extension-calls-back-into-the-library", case, {"outcomes": [repr(o)[:200] for o in outs]})
         return
     if kind == "iterators":
         run_iterators(ctx, case["text"], case["hist"], case)
